@@ -64,10 +64,10 @@ def tie_inputs(ents, rng, tier):
 
 
 def generate(res):
-    ents = G.parse_entities(C.read(os.path.join(C.REPO, "src", "entities.in")))
+    ents = C.translate(res, "c17-entities", "src/entities.in", lambda: G.parse_entities(C.read(os.path.join(C.REPO, "src", "entities.in"))))
     isrc = C.read(os.path.join(C.REPO, "src", "interface.rs"))
-    rx = G.parse_regexes(isrc)
-    cls = G.parse_entity_class(rx["HTML_ENTITIES"])
+    rx, cls = C.translate(res, "c17-regexes", "regexes of interface.rs",
+                          lambda: (lambda r: (r, G.parse_entity_class(r["HTML_ENTITIES"])))(G.parse_regexes(isrc)))
     C.write_if_changed(os.path.join(C.GEN, "Entities.v"), G.render_entities(ents, rx, cls))
     ref = G.reference()
     C.write_if_changed(os.path.join(C.GEN, "RefEntities.v"), G.render_ref(ref))
@@ -267,8 +267,6 @@ def run(res):
                               {"kind": "entity", "input": inp, "reference": r, "table": v, "observed": C.outcome(x)})
                 n += 1
                 break
-        if not re.search(r"\d", "".join(chr(c) for lo, hi in G.parse_entity_class(rx["HTML_ENTITIES"]) for c in range(lo, hi + 1))):
-            pass
         return n > 0
     proved = C.check_proofs(res, "C17", ["Props/C17.vo", "Tie/C17Tie.vo"], "Props/C17.v", search=on_broken)
     if proved:
